@@ -17,7 +17,8 @@ L5 `Periods2` — what was left of `BaseDatePeriodParser` (`base_dateperiod.py`)
   escapes), the context step at its end; `parse`: result assembly;
 * `__parse_decade` as it is in the tree (never succeeds: `Pattern.match(text, True)` starts at position 1,
   `match.success` / `True.success` raise AttributeError) and `decadeFixed`, the computation the function's text spells
-  out once its attribute slips are repaired (findings/periods2/decade.diff);
+  out (integer division, string building as in the C# original) — the specification a repair has to meet; the
+  correspondence probes which of the two the working tree follows;
 * `__parse_week_of_date`, `__parse_month_of_date`, and the `_inclusive_end_period = True` variants of month-with-year,
   year, week of month, week of year, duration.
 `none` / `.raises` = the Python code raises.
@@ -311,8 +312,7 @@ deriving DecidableEq, Repr
 /-- `XX` ++ two digits for the open-century TIMEX (`"XX" + decade`) -/
 def xxYear (n : Int) : Str := [88, 88] ++ Periods.intStr n
 
-/-- The computation `__parse_decade` spells out, with integer division where the C# original has it
-(findings/periods2/decade.diff): `[Jan 1 of begin_year, Jan 1 of begin_year + 10·|swift|)`, TIMEX
+/-- The computation `__parse_decade` spells out, with integer division where the C# original has it: `[Jan 1 of begin_year, Jan 1 of begin_year + 10·|swift|)`, TIMEX
 `(begin,end,P<10·|swift|>Y)`; without a century in the text the century is open (`XX90`) and future / past take the next
 / previous occurrence relative to the reference. -/
 def decadeFixed (ref : DateTime) (i : DecadeIn) : Res :=
